@@ -334,6 +334,23 @@ fn overflow_boundary() {
             }
         }
     }
+    // the overflow that is reported does not depend on the form in which the program was handed
+    // over (programs, instructions, integer instructions: all convert into programs)
+    {
+        use push::instruction::PushInstruction;
+        let as_programs: Vec<PushProgram> = (0..5).map(|k| PushProgram::from(IntInstruction::push(k))).collect();
+        let as_instructions: Vec<PushInstruction> = (0..5).map(|k| PushInstruction::from(IntInstruction::push(k))).collect();
+        let as_int_instructions: [IntInstruction; 5] = std::array::from_fn(|k| IntInstruction::push(k as i64));
+        let build = || PushState::builder().with_max_stack_size(3).with_instruction_step_limit(1);
+        let e1 = build().with_program(as_programs).map(|_| ()).map_err(|e| format!("{e:?}"));
+        let e2 = build().with_program(as_instructions).map(|_| ()).map_err(|e| format!("{e:?}"));
+        let e3 = build().with_program(as_int_instructions).map(|_| ()).map_err(|e| format!("{e:?}"));
+        cases += 1;
+        if e1.is_ok() || e1 != e2 || e1 != e3 {
+            report("overflow-boundary", false, json!({"stack": "program of 5 on an exec stack of 3, supplied in three forms", "as Vec<PushProgram>": format!("{e1:?}"), "as Vec<PushInstruction>": format!("{e2:?}"), "as [IntInstruction; 5]": format!("{e3:?}"), "expected": "the same Overflow error from all three"}));
+            return;
+        }
+    }
     // supplies that only *announce* their length (exact-size iterators of up to usize::MAX items),
     // onto empty and already loaded stacks, bounded and unbounded: an overflow error, never a
     // panic or an attempt to reserve what was announced
